@@ -344,6 +344,24 @@ def rule_fields(fx, rep):
     rep.obligation(good)
     if not good:
         bad("install", f"Game::from_state does not store its parameters unchanged: {wrong or 'no single Game literal'}: what the reader parsed is not what the position holds, so writing it back gives a different text", fs)
+    # ... and the reader hands from_state the clock it parsed: the parsed number (or 0 when the field is absent), not a clamped
+    # or otherwise adjusted one (a clock above 100 is legal - the draw has to be claimed - and must survive reading)
+    for (cb, cbb, ct) in fx.callers_of(lambda nm: norm(nm).endswith("Game::from_state")):
+        if "fen_parser" not in norm(cb.name) or "::tests::" in cb.name:
+            continue
+        pi = {fs.local_name(i): i for i in range(1, fs.arg_count + 1)}.get("halfmove_clock")
+        if pi is None or pi > len(ct["args"]):
+            continue
+        e = deep_strip(cb.expr(ct["args"][pi - 1], expand_named=True, at=cbb))
+        n += 1
+        adj = [str(x[1]).split("::")[-1] for x in walk(e) if isinstance(x, tuple) and x and x[0] == "call" and isinstance(x[1], str) and
+               str(x[1]).split("::")[-1] in ("min", "max", "clamp", "saturating_sub", "saturating_add", "wrapping_add", "wrapping_sub", "rem_euclid")]
+        adj += [x[1] for x in walk(e) if isinstance(x, tuple) and x and x[0] == "binop" and x[1].replace("WithOverflow", "") in ("Add", "Sub", "Mul", "Div", "Rem", "BitAnd", "Shr")]
+        good = not adj
+        rep.obligation(good)
+        if not good:
+            bad("install-arg", f"the FEN reader hands Game::from_state a halfmove clock adjusted by `{adj[0]}` (`{show(e)[:80]}`) instead of the number it read: a legal position with a larger clock is not "
+                "reproduced, and writing it back gives a different text", cb)
     rep.rule("C06-FIELDS", n, 3, ok, "scalar FEN fields written from their own Game field; move-number formulas inverse")
 
 
